@@ -67,7 +67,7 @@ def gen_world(args, scratch):
         for rk in out['ranks']:
             prof = (rk.get('clock') or {}).get('profile')
             if prof is not None:
-                rk['clock']['profile'] = [[b, nt, nc, hashlib.sha256(repr((site, path)).encode()).hexdigest()[:12], list(site) if site else None]
+                rk['clock']['profile'] = [[b, nt, nc, hashlib.sha256(repr((site, path)).encode()).hexdigest()[:12], list(site) if site else None, sorted(set(path))]
                                           for b, nt, nc, path, site in prof]
     d = libdir(scratch, runname, compl)
     out['hashes'] = file_hashes(d)
@@ -98,6 +98,12 @@ def gen_world(args, scratch):
         if os.path.isdir(d):
             os.makedirs(os.path.dirname(dst), exist_ok=True)
             shutil.copytree(d, dst, dirs_exist_ok=True)
+    try:
+        import re
+        m = re.findall(r'Need to change (\d+) functions', open(scratch + '/rank0.out').read())
+        out['n_unmerged'] = int(m[-1]) if m else None
+    except Exception:
+        out['n_unmerged'] = None
     if args.get('tail'):
         try:
             out['stdout_tail'] = open(scratch + '/rank0.out').read()[-int(args['tail']):]
